@@ -291,7 +291,7 @@ def float_decls(ctx):
         out.append((core_case, Decl('float', t, True)))
     extra = [Decl('float', {'min': 0}, False), Decl('float', {'max': 0.0}, False), Decl('float', {'min': 0}, True, check='nonneg'),
              Decl('float', {'min': '0.5'}, True), Decl('float', {'min': 0, 'max': 10}, False, {'default': 3}),
-             Decl('float', {'min': 0}, True, {'default': -1.0})]
+             Decl('float', {'min': 0}, True, {'default': -1.0}), Decl('float', {'min': math.nan}, True), Decl('float', {'max': math.nan}, False)]
     return out, extra
 
 def float_candidates(d):
@@ -566,14 +566,15 @@ def compare_with_model(ctx, work):
 # ----------------------------------------------------------------------------------------------------------------
 
 def nan_witness(ctx):
-    """the witness of C08_float_full_false replayed on the real code on every run"""
+    """NaN against a declared bound (C08_float_nan_rejected; regression witness of fix 626bc5b) on the real code on every run"""
     d = Decl('float', {'min': 0}, True)
     db, E = build(d)
-    for entry in ('create',):
-        got = real_entry(E, None, entry, math.nan)
+    with db_session: base_id = E(x=1.0).id; commit()
+    for entry in ENTRIES:
+        got = real_entry(E, base_id, entry, math.nan)
         ctx.case(['nan-witness', entry], kind='witness:float-nan')
         if got[0] == 'ok':
-            ctx.violation("Required(float, min=0) accepts float('nan') although 0 <= nan is false (every comparison of RealConverter.validate with NaN is false)",
+            ctx.violation("Required(float, min=0) accepts float('nan') although 0 <= nan is false",
                           {'declaration': d.text(), 'value': 'nan', 'entry_point': entry}, observed=list(map(show, got)), expected=['reject', 'below min'],
                           key='float-nan-passes-bounds')
     db.disconnect()
